@@ -2,4 +2,4 @@
 From Coq Require Import Extraction ExtrOcamlBasic.
 From Robsd Require Import Orch.ResumeSpec.
 Extraction Language OCaml.
-Extraction "rs_model.ml" step_next spec_resume resume_okb spec_ok_next orch from_step Nat.pred.
+Extraction "rs_model.ml" step_next spec_resume resume_okb spec_ok_next spec_ok_resumed orch from_step Nat.pred.
